@@ -6,18 +6,24 @@ import LokiModel.Generated.C05Tables
 
 Model: `LokiModel/C05/Model.lean` (`sanitizeLine` = the six rules of `sanitize_registry[FP]` on one line,
 `effective` = statement text after the re-insertion callbacks, `segments` = code / literal / comment pieces).
+The model is the code after the three `fix:` commits of the fix wave (callbacks applied in reverse registry order;
+`@PROCESS` / Fypp patterns anchored at the line start; `__LINE__` protected inside `#` directive lines).
 
-The full statement `C05_full` ("every literal and comment stretch of every line survives") is **false** for
-the unchanged code (`C05_full_false`, witness `print *, '__LINE__'`).  What is proved instead:
+The full statement `C05_full` ("every literal and comment stretch of every line survives") is still **false**
+(`C05_full_false`, witness `print *, '__LINE__'`: the rules are not quote/comment aware).  What is proved:
 
 * `C05_no_trigger_identity` (full strength): a line that contains none of the trigger texts anywhere is
   returned verbatim with empty `pp_info`.
-* `C05_untargeted_partial`: outside the known-finding classes (a macro token inside a literal or comment;
-  rule 1 / rule 6 firing; both OPEN rules firing) the statement text after re-insertion is the line with
-  only its *code* stretches rewritten — every literal and comment stretch is carried over verbatim, in place.
-* `C05_targeted_restored_convert` / `_newunit` / `C05_targeted_restored`: the recorded groups give back
-  exactly the line the rule was applied to; with one OPEN rule firing the re-inserted statement text is the
-  line as it was before the OPEN rules.  `C05_restored_both_false`: with both rules firing it is not.
+* `C05_directive_rules_anchored` (full strength): rules 1 and 6 fire only on lines that consist of blanks followed by
+  the directive, and then delete the whole line (nothing else of a line is ever removed by them).
+* `C05_pp_directive_untouched` (full strength): a `#` directive line with a macro token after the `#` passes the
+  macro rule (rule 2, and since the fix rule 3 for `__LINE__`) verbatim.
+* `C05_targeted_restored_convert` / `_newunit` (full strength) and `C05_targeted_restored` (full strength since the
+  fix): the recorded groups give back exactly the line the rule was applied to, and after both callbacks the statement
+  text is the line as it was before the OPEN rules — also when both rules fire.
+* `C05_untargeted_partial`: outside the open known-finding classes (a macro token inside a literal or comment) and
+  when the line is not a directive line deleted by rule 1 / rule 6, the statement text after re-insertion is the line
+  with only its *code* stretches rewritten — every literal and comment stretch is carried over verbatim, in place.
 -/
 namespace LokiModel.C05
 
@@ -35,7 +41,7 @@ theorem C05_no_trigger_identity (b : Line) (nl : Bool) (h : noTrigger b = true) 
   obtain ⟨⟨⟨⟨⟨h1, h2⟩, h3⟩, h4⟩, h5⟩, h6⟩ := h
   have hs := hasTok_mono strToks_sub h2
   have hi := hasTok_mono intToks_sub h2
-  simp only [sanitizeLine, ruleIbm_id nl h1, ruleStrPP_id hs, ruleIntPP, scan_id hi, hasSub_tLine_of_hasTok hi,
+  simp only [sanitizeLine, ruleIbm_id nl h1, ruleStrPP, ruleIntPP, rulePP_id hs, rulePP_id hi,
     ruleConvert_id nl h3, ruleNewunit_id h4, ruleFypp_id nl h5 h6, emptyInfo]
 
 /-- non-vacuity -/
@@ -56,33 +62,72 @@ theorem C05_targeted_restored_newunit (b : Line) (g : NewunitGroups) (h : (ruleN
     reinsertNewunit g = b :=
   ruleNewunit_some h
 
-/-- **pipeline level**: if at most one of the OPEN rules fires, the statement text after the re-insertion
-callbacks is the line as it was before the OPEN rules (up to the swallowed newline), provided rule 6 does not
-delete the line. -/
-theorem C05_targeted_restored (b : Line) (nl : Bool)
-    (hboth : KnownBothOpen b nl = false) (hfypp : (sanitizeLine b nl).info.fypp = false) :
+/-- **pipeline level (full strength since the fix)**: for every line that rule 6 does not delete, the statement
+text after the re-insertion callbacks (applied in reverse registry order) is the line as it was before the OPEN rules
+(up to the swallowed newline) — whether rule 4, rule 5, both or none fired. -/
+theorem C05_targeted_restored (b : Line) (nl : Bool) (hfypp : (sanitizeLine b nl).info.fypp = false) :
     ∃ e, (e = [] ∨ e = ['\n']) ∧ effective (sanitizeLine b nl) = beforeOpen b nl ++ e := by
-  simp only [KnownBothOpen, sanitizeLine, Bool.and_eq_false_iff] at hboth hfypp
+  simp only [sanitizeLine] at hfypp
   simp only [effective, sanitizeLine, beforeOpen]
   generalize (ruleIntPP (ruleStrPP (ruleIbm b nl).1).1).1 = t3 at *
   generalize (ruleIbm b nl).2.1 = nl1 at *
-  cases h5 : (ruleNewunit (ruleConvert t3 nl1).1).2 with
-  | some g5 =>
-    have h4 : (ruleConvert t3 nl1).2.2 = none := by
-      rcases hboth with h | h
-      · simpa using h
-      · rw [h5] at h; simp at h
-    simp only
-    rw [ruleNewunit_some h5, ruleConvert_none h4]
-    exact ⟨[], Or.inl rfl, by simp⟩
+  cases h4 : (ruleConvert t3 nl1).2.2 with
+  | some g4 => exact (ruleConvert_some h4).1
   | none =>
     simp only
-    cases h4 : (ruleConvert t3 nl1).2.2 with
-    | some g4 => exact (ruleConvert_some h4).1
+    cases h5 : (ruleNewunit (ruleConvert t3 nl1).1).2 with
+    | some g5 =>
+      simp only
+      rw [ruleNewunit_some h5, ruleConvert_none h4]
+      exact ⟨[], Or.inl rfl, by simp⟩
     | none =>
       simp only
       rw [ruleFypp_not_fired hfypp, ruleNewunit_none h5, ruleConvert_none h4]
       exact ⟨[], Or.inl rfl, by simp⟩
+
+/-- non-vacuity: both OPEN rules fire and the statement is restored -/
+example : let o := sanitizeLine "open(newunit=iu, file=fn, convert='big_endian')".toList true
+    o.info.convert.isSome = true ∧ o.info.newunit.isSome = true ∧ o.text = "open(iu, file=fn)".toList ∧
+    effective o = "open(newunit=iu, file=fn, convert='big_endian')".toList := by decide
+
+/-! ## directive rules -/
+
+/-- **rules 1 and 6 are anchored**: when the `@PROCESS` rule fires, the line consists of blanks followed by
+`@PROCESS…` and the whole line is replaced by the empty line; when the Fypp rule fires, the line it sees consists of
+blanks followed by `# <digit>…` and is deleted as a whole.  No part of any other line is removed by these rules. -/
+theorem C05_directive_rules_anchored (b : Line) (nl : Bool) :
+    ((ruleIbm b nl).2.2 = true → (litLen tProcess (b.dropWhile isWs)).isSome = true ∧ (ruleIbm b nl).1 = []) ∧
+    ((ruleFypp b nl).2.2 = true → fyppAt (b.dropWhile isWs) = true ∧ (ruleFypp b nl).1 = []) ∧
+    ((ruleIbm b nl).2.2 = false → ruleIbm b nl = (b, nl, false)) ∧
+    ((ruleFypp b nl).2.2 = false → ruleFypp b nl = (b, nl, false)) := by
+  refine ⟨?_, ?_, ruleIbm_not_fired, ruleFypp_not_fired⟩
+  · intro h
+    unfold ruleIbm at h ⊢
+    split at h
+    · rename_i hc; simp only [Bool.and_eq_true] at hc; simp [hc.2, hc.1]
+    · simp at h
+  · intro h
+    unfold ruleFypp at h ⊢
+    split at h
+    · rename_i hc; simp only [Bool.and_eq_true] at hc; simp [hc.2, hc.1]
+    · simp at h
+
+/-- a literal or comment that merely mentions `@PROCESS` or a Fypp file name is no longer touched -/
+example : (sanitizeLine "  print *, '@PROCESS' ! see @PROCESS".toList true).full = "  print *, '@PROCESS' ! see @PROCESS\n".toList := by decide
+example : (sanitizeLine "  a = 1 # 1 \"foo.fypp\"".toList true).full = "  a = 1 # 1 \"foo.fypp\"\n".toList := by decide
+example : (sanitizeLine "@PROCESS NOOPT".toList true).full = "\n".toList ∧ (sanitizeLine "# 3 \"a.fypp\" 2".toList true).full = [] := by decide
+
+/-- **`#` directive lines keep their macro tokens**: if a rule-2 token follows the `#` the line passes rule 2
+verbatim, and if `__LINE__` follows the `#` the line passes rule 3 verbatim (since the fix; before, `__LINE__` was
+replaced by `0` inside directives too) -/
+theorem C05_pp_directive_untouched (toks : List Line) (f : Line → Line) (b : Line)
+    (h : (directiveLen toks b).isSome = true) : (rulePP toks f b).1 = b := by
+  unfold rulePP
+  cases hd : directiveLen toks b with
+  | none => rw [hd] at h; simp at h
+  | some n => rfl
+
+example : (sanitizeLine "#define HERE __FILE__ // __LINE__".toList true).full = "#define HERE __FILE__ // __LINE__\n".toList := by decide
 
 /-! ## untargeted text -/
 
@@ -108,29 +153,29 @@ def C05_full : Prop :=
   ∀ (b : Line) (nl : Bool), ∃ (g : Line → Line) (e : Line),
     effective (sanitizeLine b nl) = flat (mapCode g (segments b)) ++ e ∧ (e = [] ∨ e = ['\n'])
 
-/-- **C05, untargeted text (partial)**: outside the known-finding classes — no macro token inside a literal or
-comment (`tokInProt`), rule 1 (`@PROCESS`) and rule 6 (Fypp annotation) do not fire, not both OPEN rules fire —
-the statement text after sanitisation and re-insertion is obtained from the line by rewriting code stretches only:
-every character-literal stretch and the comment are carried over verbatim, in place.
-Missing for the full statement: exactly those classes (see `C05_full_false`); the `&` continuation branch of the
-re-insertion callbacks and parsability of the intermediate text are not modelled. -/
+/-- **C05, untargeted text (partial)**: if no macro token lies inside a literal or comment (`tokInProt`, the open
+known-finding classes `macro-in-string` / `macro-in-comment`) and the line is not a directive line deleted by rule 1
+(`@PROCESS`) or rule 6 (Fypp annotation; both anchored, see `C05_directive_rules_anchored`), the statement text after
+sanitisation and re-insertion is obtained from the line by rewriting code stretches only: every character-literal
+stretch and the comment are carried over verbatim, in place.
+Missing for the full statement: exactly the class `tokInProt` (see `C05_full_false`); the `&` continuation branch of
+the re-insertion callbacks and parsability of the intermediate text are not modelled. -/
 theorem C05_untargeted_partial (b : Line) (nl : Bool)
     (htok : tokInProt b = false) (hibm : (sanitizeLine b nl).info.ibm = false)
-    (hfypp : (sanitizeLine b nl).info.fypp = false) (hboth : KnownBothOpen b nl = false) :
+    (hfypp : (sanitizeLine b nl).info.fypp = false) :
     ∃ (g : Line → Line) (e : Line),
       effective (sanitizeLine b nl) = flat (mapCode g (segments b)) ++ e ∧ (e = [] ∨ e = ['\n']) := by
-  obtain ⟨e, he, heq⟩ := C05_targeted_restored b nl hboth hfypp
+  obtain ⟨e, he, heq⟩ := C05_targeted_restored b nl hfypp
   obtain ⟨g, hg⟩ := pp_local b htok
   refine ⟨g, e, ?_, he⟩
   rw [heq, beforeOpen]
   have : ruleIbm b nl = (b, nl, false) := ruleIbm_not_fired (by simpa [sanitizeLine] using hibm)
   rw [this, hg]
 
-/-- non-vacuity: an OPEN statement with a literal, a targeted argument, a code macro and a comment satisfies the hypotheses -/
-example : let b := "  OPEN(UNIT=__LINE__, FILE='it''s', CONVERT='BIG_ENDIAN') ! why".toList
+/-- non-vacuity: an OPEN statement with a literal, both targeted arguments, a code macro and a comment satisfies the hypotheses -/
+example : let b := "  OPEN(NEWUNIT=iu, RECL=__LINE__, FILE='it''s', CONVERT='BIG_ENDIAN') ! why".toList
     tokInProt b = false ∧ (sanitizeLine b true).info.ibm = false ∧ (sanitizeLine b true).info.fypp = false ∧
-    KnownBothOpen b true = false ∧
-    effective (sanitizeLine b true) = "  OPEN(UNIT=0, FILE='it''s', CONVERT='BIG_ENDIAN') ! why".toList := by
+    effective (sanitizeLine b true) = "  OPEN(NEWUNIT=iu, RECL=0, FILE='it''s', CONVERT='BIG_ENDIAN') ! why".toList := by
   decide
 
 /-- the witness of the probed defect: `print *, '__LINE__'` is turned into `print *, '0'` -/
@@ -150,53 +195,4 @@ theorem C05_full_false : ¬ C05_full := by
   rw [← heq] at hmem
   exact absurd hmem (by decide)
 
-/-- **both OPEN rules on one line**: the NEWUNIT re-insertion is built from the text that no longer has the
-CONVERT argument and overwrites the CONVERT re-insertion — the CONVERT argument is lost -/
-theorem C05_restored_both_false :
-    ¬ (∀ (b : Line) (nl : Bool), (sanitizeLine b nl).info.fypp = false →
-        ∃ e, (e = [] ∨ e = ['\n']) ∧ effective (sanitizeLine b nl) = beforeOpen b nl ++ e) := by
-  intro h
-  obtain ⟨e, he, heq⟩ := h "open(newunit=iu, convert='big_endian')".toList true (by decide)
-  have h1 : effective (sanitizeLine "open(newunit=iu, convert='big_endian')".toList true) = "open(newunit=iu)".toList := by decide
-  have h2 : beforeOpen "open(newunit=iu, convert='big_endian')".toList true = "open(newunit=iu, convert='big_endian')".toList := by decide
-  rw [h1, h2] at heq
-  have hlen := congrArg List.length heq
-  rcases he with rfl | rfl <;> simp at hlen
-
-/-! ## fix candidate checked in the model -/
-
-/-- fix candidate: apply the re-insertion callbacks in *reverse* registry order (undo the last rewrite first) -/
-def effectiveRev (o : Out) : Line :=
-  match o.info.convert with
-  | some g => reinsertConvert g
-  | none =>
-    match o.info.newunit with
-    | some g => reinsertNewunit g
-    | none => o.text
-
-/-- with the callbacks applied in reverse order the statement text is the line as it was before the OPEN rules
-for **every** line on which rule 6 does not fire — also when both OPEN rules fire (the fix candidate for the
-class `open-convert-and-newunit`, checked in the model) -/
-theorem C05_fix_reverse_order (b : Line) (nl : Bool) (hfypp : (sanitizeLine b nl).info.fypp = false) :
-    ∃ e, (e = [] ∨ e = ['\n']) ∧ effectiveRev (sanitizeLine b nl) = beforeOpen b nl ++ e := by
-  simp only [sanitizeLine] at hfypp
-  simp only [effectiveRev, sanitizeLine, beforeOpen]
-  generalize (ruleIntPP (ruleStrPP (ruleIbm b nl).1).1).1 = t3 at *
-  generalize (ruleIbm b nl).2.1 = nl1 at *
-  cases h4 : (ruleConvert t3 nl1).2.2 with
-  | some g4 => exact (ruleConvert_some h4).1
-  | none =>
-    simp only
-    cases h5 : (ruleNewunit (ruleConvert t3 nl1).1).2 with
-    | some g5 =>
-      simp only
-      rw [ruleNewunit_some h5, ruleConvert_none h4]
-      exact ⟨[], Or.inl rfl, by simp⟩
-    | none =>
-      simp only
-      rw [ruleFypp_not_fired hfypp, ruleNewunit_none h5, ruleConvert_none h4]
-      exact ⟨[], Or.inl rfl, by simp⟩
-
-example : effectiveRev (sanitizeLine "open(newunit=iu, convert='big_endian')".toList true)
-    = "open(newunit=iu, convert='big_endian')".toList := by decide
 end LokiModel.C05
